@@ -1,8 +1,12 @@
 open BinInt
 open BinNat
 open BinNums
+open Bytes0
 open Consts
 open Datatypes
+open List0
+open Nat0
+open PeanoNat
 
 (** val gd_int_min : coq_Z -> coq_Z **)
 
@@ -352,3 +356,157 @@ let gd_target_size j =
           Coq_xH))))))) Z0 j with
   | Some v -> if Z.ltb v Z0 then None else Some v
   | None -> None
+
+type gd_chunk_time =
+| GdFast
+| GdMid
+| GdSlow of coq_Z
+
+type gd_ack = { ga_len : coq_Z; ga_time : gd_chunk_time }
+
+(** val gd_min64 : coq_Z -> coq_Z -> coq_Z **)
+
+let gd_min64 a b =
+  if Z.ltb a b then a else b
+
+(** val gd_is_fast : gd_chunk_time -> bool **)
+
+let gd_is_fast = function
+| GdFast -> true
+| _ -> false
+
+(** val gd_bufsize_step : coq_Z -> coq_Z -> gd_ack -> coq_Z **)
+
+let gd_bufsize_step maxbuf bs a =
+  if (&&) ((&&) (Z.eqb a.ga_len bs) (gd_is_fast a.ga_time)) (Z.ltb bs maxbuf)
+  then gd_min64 (gd_wrap64 (Z.mul bs guards_grow_factor)) maxbuf
+  else (match a.ga_time with
+        | GdSlow k ->
+          if Z.leb a.ga_len bs
+          then let q = Z.quot bs k in
+               if Z.ltb q guards_min_chunk then guards_min_chunk else q
+          else bs
+        | _ -> bs)
+
+(** val gd_bufsize_run : coq_Z -> coq_Z -> gd_ack list -> coq_Z list **)
+
+let rec gd_bufsize_run maxbuf bs = function
+| [] -> bs :: []
+| a :: r -> bs :: (gd_bufsize_run maxbuf (gd_bufsize_step maxbuf bs a) r)
+
+(** val gd_capacities : coq_Z -> gd_ack list -> coq_Z list **)
+
+let gd_capacities maxbuf l =
+  gd_bufsize_run maxbuf guards_init_buffer_size l
+
+(** val gd_bufsize_step_v1 : coq_Z -> coq_Z -> gd_ack -> coq_Z **)
+
+let gd_bufsize_step_v1 maxbuf bs a =
+  if (&&) ((&&) (Z.eqb a.ga_len bs) (gd_is_fast a.ga_time)) (Z.ltb bs maxbuf)
+  then gd_min64 (gd_wrap64 (Z.mul bs guards_grow_factor)) maxbuf
+  else (match a.ga_time with
+        | GdSlow _ ->
+          if Z.gtb bs guards_v1_init_bufsize
+          then guards_v1_init_bufsize
+          else bs
+        | _ -> bs)
+
+(** val gd_bufsize_run_v1 : coq_Z -> coq_Z -> gd_ack list -> coq_Z list **)
+
+let rec gd_bufsize_run_v1 maxbuf bs = function
+| [] -> bs :: []
+| a :: r ->
+  bs :: (gd_bufsize_run_v1 maxbuf (gd_bufsize_step_v1 maxbuf bs a) r)
+
+(** val gd_bufsize_step_ms :
+    coq_Z -> coq_Z -> coq_Z -> coq_Z -> coq_Z -> coq_Z option **)
+
+let gd_bufsize_step_ms thr maxbuf bs len ms =
+  if (&&) ((&&) (Z.eqb len bs) (Z.ltb ms guards_ack_fast_ms))
+       (Z.ltb bs maxbuf)
+  then Some (gd_min64 (gd_wrap64 (Z.mul bs guards_grow_factor)) maxbuf)
+  else if (&&) (Z.leb thr ms) (Z.leb len bs)
+       then let k =
+              Z.div ms (Zpos (Coq_xO (Coq_xO (Coq_xO (Coq_xI (Coq_xO (Coq_xI
+                (Coq_xI (Coq_xI (Coq_xI Coq_xH))))))))))
+            in
+            if Z.eqb k Z0
+            then None
+            else Some
+                   (let q = Z.quot bs k in
+                    if Z.ltb q guards_min_chunk then guards_min_chunk else q)
+       else Some bs
+
+(** val gd_bufsize_run_ms :
+    coq_Z -> coq_Z -> coq_Z -> (coq_Z * coq_Z) list -> coq_Z list option **)
+
+let rec gd_bufsize_run_ms thr maxbuf bs = function
+| [] -> Some (bs :: [])
+| p :: r ->
+  let (len, ms) = p in
+  (match gd_bufsize_step_ms thr maxbuf bs len ms with
+   | Some bs' ->
+     (match gd_bufsize_run_ms thr maxbuf bs' r with
+      | Some rest -> Some (bs :: rest)
+      | None -> None)
+   | None -> None)
+
+(** val gd_capacities_ms :
+    coq_Z -> (coq_Z * coq_Z) list -> coq_Z list option **)
+
+let gd_capacities_ms maxbuf l =
+  gd_bufsize_run_ms guards_ack_slow_ms maxbuf guards_init_buffer_size l
+
+type gd_aw_way =
+| GdAwToFile
+| GdAwHeader
+| GdAwNilDeref
+
+(** val gd_aw_dispatch : bool -> coq_Z -> bool -> gd_aw_way **)
+
+let gd_aw_dispatch nilcheck left has_file =
+  if Z.ltb Z0 left
+  then if has_file
+       then GdAwToFile
+       else if nilcheck then GdAwHeader else GdAwNilDeref
+  else GdAwHeader
+
+(** val gd_aw_after_header : bool -> coq_Z -> coq_Z * bool **)
+
+let gd_aw_after_header is_dir size =
+  (size, (negb is_dir))
+
+(** val gd_aw_ways :
+    bool -> coq_Z -> bool -> ((bool * coq_Z) * nat) list -> gd_aw_way list **)
+
+let rec gd_aw_ways nilcheck left has_file = function
+| [] -> []
+| p :: r ->
+  let (p0, k) = p in
+  let (d, sz) = p0 in
+  let (l1, f1) = gd_aw_after_header d sz in
+  (gd_aw_dispatch nilcheck left has_file) :: (app
+                                               (repeat
+                                                 (gd_aw_dispatch nilcheck l1
+                                                   f1) k)
+                                               (gd_aw_ways nilcheck l1 f1 r))
+
+type gd_split =
+| GdSplitReject
+| GdSplitPanic
+| GdSplitOk of coq_N list * coq_N list
+
+(** val gd_line_split : coq_Z -> coq_N list -> gd_split **)
+
+let gd_line_split min_idx line =
+  match index_byte (Npos (Coq_xO (Coq_xI (Coq_xO (Coq_xI (Coq_xI Coq_xH))))))
+          line with
+  | Some i ->
+    if Z.ltb (Z.of_nat i) min_idx
+    then GdSplitReject
+    else if Nat.ltb i (S O)
+         then GdSplitPanic
+         else GdSplitOk ((firstn (sub i (S O)) (skipn (S O) line)),
+                (skipn (S i) line))
+  | None ->
+    if Z.ltb (Zneg Coq_xH) min_idx then GdSplitReject else GdSplitPanic
